@@ -16,6 +16,7 @@ EXPLANATION = (
     'Also decided: definite assignment of every local in the modules of the request path (two named exceptions); housekeeping deletes only after a fresh look-up; accept() errors end the multiplex loop only for a destroyed server socket. '
     "Also decided (round 7): The worker's event is cleared before the job slot is read and not again before the next wait; a worker is handed back only by a thread that stays alive (not from a finally). Text built from an exception caught by a catch-all handler (str, repr, %-format, format, f-string) counts as user code that may raise. "
     'Also decided (round 9): Every socket.timeout handler of receive_data ends the read with TimeoutError (a stalled peer costs at most COMMTIMEOUT). '
+    "Also decided (round 11): Nothing switches the accepted socket's blocking mode after the communication timeout was put on it; every name read in the request-path modules is bound somewhere. "
     "Also decided (round 10): A refused peer is neither read from nor waited for between the answer and the close (shared from C08); the pool's capacity is what its two sets say and a new worker is counted only once started (shared from C18). "
     "Not decided: correctness of the replies to well-behaved clients, accounting values, "
     "liveness against a peer that stalls without disconnecting."
